@@ -99,7 +99,10 @@ def random_case(rng, tier):
             schedule.append({'act': 'pause', 'at': rng.randint(first, ticks + 3), 'msg': 'again'})
     else:
         schedule = [{'act': 'kill', 'at': rng.randint(0, ticks + 1), 'msg': 'kk'}]
-    return {'program': program, 'schedule': schedule, 'scenario': scenario, 'opts': opts}
+    case = {'program': program, 'schedule': schedule, 'scenario': scenario, 'opts': opts}
+    if rng.random() < 0.2:
+        case['hostile'] = True  # an exception raised inside a listener cannot be formatted (its __str__ raises)
+    return case
 
 
 def shrink(case):
@@ -134,6 +137,9 @@ def site_class(site, occurrence, callback_states):
 def _execute(case, fault):
     """One simulated execution; returns (engine, drive status).  The caller closes the engine."""
     engine = common.new_engine(case, record_hooks=False, fault=fault)
+    # (only for faults inside listeners, which the process swallows and logs: for an exception that becomes the outcome of
+    # the process, being printable is part of being a usable outcome, and plumpy formats it in several places)
+    engine.world.hostile = bool(case.get('hostile')) and fault is not None and str(fault[0]).startswith('listener:')
     started = engine.start()
     drive = None
     if started:
